@@ -47,19 +47,96 @@ type vfE1SAddr struct{}
 func (vfE1SAddr) Network() string { return "pipe" }
 func (vfE1SAddr) String() string  { return "127.0.0.1:1" }
 
-// vfE1SRec is the server side's net.Conn: records everything written to the "socket".
+// vfE1SQ is one direction of an in-memory connection (unbounded, so a Write never blocks).
+type vfE1SQ struct {
+	mu       sync.Mutex
+	cond     *sync.Cond
+	buf      []byte
+	closed   bool
+	nonblock bool // Read returns a temporary timeout error instead of waiting
+}
+
+func vfE1SNewQ() *vfE1SQ {
+	q := &vfE1SQ{}
+	q.cond = sync.NewCond(&q.mu)
+	return q
+}
+
+type vfE1SWouldBlock struct{}
+
+func (vfE1SWouldBlock) Error() string   { return "vfE1S: no data (non-blocking read)" }
+func (vfE1SWouldBlock) Timeout() bool   { return true }
+func (vfE1SWouldBlock) Temporary() bool { return true }
+
+func (q *vfE1SQ) write(p []byte) {
+	q.mu.Lock()
+	q.buf = append(q.buf, p...)
+	q.cond.Broadcast()
+	q.mu.Unlock()
+}
+
+func (q *vfE1SQ) read(p []byte) (int, error) {
+	q.mu.Lock()
+	defer q.mu.Unlock()
+	deadline := time.Now().Add(20 * time.Second)
+	for len(q.buf) == 0 {
+		if q.closed {
+			return 0, io.EOF
+		}
+		if q.nonblock {
+			return 0, vfE1SWouldBlock{}
+		}
+		if time.Now().After(deadline) {
+			return 0, io.ErrNoProgress
+		}
+		t := time.AfterFunc(time.Second, q.cond.Broadcast)
+		q.cond.Wait()
+		t.Stop()
+	}
+	n := copy(p, q.buf)
+	q.buf = q.buf[n:]
+	return n, nil
+}
+
+func (q *vfE1SQ) set(nonblock bool) {
+	q.mu.Lock()
+	q.nonblock = nonblock
+	q.cond.Broadcast()
+	q.mu.Unlock()
+}
+
+func (q *vfE1SQ) discard() {
+	q.mu.Lock()
+	q.buf = nil
+	q.mu.Unlock()
+}
+
+func (q *vfE1SQ) close() {
+	q.mu.Lock()
+	q.closed = true
+	q.cond.Broadcast()
+	q.mu.Unlock()
+}
+
+// vfE1SRec is the server side's net.Conn: records everything written to the "socket" (buf) and
+// hands it to the client side (s2c); reads what the client side wrote (only a TLS handshake does).
 type vfE1SRec struct {
 	mu  sync.Mutex
 	buf []byte
+	s2c *vfE1SQ
+	c2s *vfE1SQ
 }
+
+func vfE1SNewRec() *vfE1SRec { return &vfE1SRec{s2c: vfE1SNewQ(), c2s: vfE1SNewQ()} }
 
 func (c *vfE1SRec) Write(p []byte) (int, error) {
 	c.mu.Lock()
 	c.buf = append(c.buf, p...)
 	c.mu.Unlock()
+	c.s2c.write(p)
 	return len(p), nil
 }
-func (c *vfE1SRec) Read(p []byte) (int, error)         { return 0, io.EOF }
+func (c *vfE1SRec) Read(p []byte) (int, error)         { return c.c2s.read(p) }
 func (c *vfE1SRec) Close() error                       { return nil }
 func (c *vfE1SRec) LocalAddr() net.Addr                { return vfE1SAddr{} }
 func (c *vfE1SRec) RemoteAddr() net.Addr               { return vfE1SAddr{} }
@@ -71,6 +148,18 @@ func (c *vfE1SRec) Len() int {
 	defer c.mu.Unlock()
 	return len(c.buf)
 }
+
+// vfE1SPeer is the client's end of the same connection (what a TLS client runs on).
+type vfE1SPeer struct{ rec *vfE1SRec }
+
+func (c vfE1SPeer) Write(p []byte) (int, error)        { c.rec.c2s.write(p); return len(p), nil }
+func (c vfE1SPeer) Read(p []byte) (int, error)         { return c.rec.s2c.read(p) }
+func (c vfE1SPeer) Close() error                       { return nil }
+func (c vfE1SPeer) LocalAddr() net.Addr                { return vfE1SAddr{} }
+func (c vfE1SPeer) RemoteAddr() net.Addr               { return vfE1SAddr{} }
+func (c vfE1SPeer) SetDeadline(t time.Time) error      { return nil }
+func (c vfE1SPeer) SetReadDeadline(t time.Time) error  { return nil }
+func (c vfE1SPeer) SetWriteDeadline(t time.Time) error { return nil }
 
 // vfE1SDecode decodes what arrived while stack `kind` was negotiated ("plain", "snappy", "deflate").
 func vfE1SDecode(kind string, raw []byte) ([]byte, error) {
@@ -88,6 +177,16 @@ func vfE1SDecode(kind string, raw []byte) ([]byte, error) {
 	}
 }
 
+// vfE1SStaleKinds: the upgrade orders that leave a stale flate writer on /repo d6aa4e3 — the last upgrade that is
+// not TLS is a deflate and at least one TLS upgrade followed it (Model.WireStack.staleAfter).
+func vfE1SStaleKinds(ups []string) bool {
+	i := len(ups) - 1
+	for i >= 0 && ups[i] == "tls" {
+		i--
+	}
+	return i >= 0 && i < len(ups)-1 && ups[i] == "deflate"
+}
+
 // vfE1SExec runs one `stack` line on the real code.
 //
 //	stack <token>...   r<hex>  Send(frameTypeResponse, data)  (write + Flush)
@@ -95,18 +194,58 @@ func vfE1SDecode(kind string, raw []byte) ([]byte, error) {
 //	                   f       client.Flush()
 //	                   b<n>    SetOutputBuffer(n, 0)    n = -1 | 64..max
 //	                   us      UpgradeSnappy()         ud<level>  UpgradeDeflate(level)
+//	                   ut      UpgradeTLS() (a real handshake with a crypto/tls client on the in-memory connection)
 //	                   s       SUB accepted (state leaves init; nothing on the wire)
+//
+// The client decodes like a real one: stacks built on the raw connection offline from the recorded bytes
+// that arrived while the stack was negotiated; from the first TLS upgrade on through the LIVE TLS client of the
+// latest handshake (always on the raw connection, as tls.Server(c.Conn) is), compression decoded on its plaintext.
+// A fatal error of the TLS client ends the line: `k:cut:<decoded on stack k before it>` and `dead`.
 func vfE1SExec(n *NSQD, line string, hist map[string]int) (string, []string) {
 	w := strings.Fields(line)
-	rec := &vfE1SRec{}
+	rec := vfE1SNewRec()
 	c := newClientV2(-1, rec, n)
 	c.HeartbeatInterval = 0
 	p := &protocolV2{nsqd: n}
 	kinds := []string{"plain"}
-	cuts := []int{} // raw offset at which stack k+1 begins
-	var all []byte  // every frame handed to Send, in order
+	live := []bool{false}      // stack k is read through the live TLS client
+	plain := [][]byte{nil}     // live stacks: the TLS plaintext that arrived while stack k was negotiated
+	var ups []string           // upgrade kinds in order
+	cuts := []int{}            // raw offset at which stack k+1 begins
+	var all []byte             // every frame handed to Send, in order
 	var fails []string
+	var tc *tls.Conn
+	var tlsErr error
+	dead := false
+	drain := func() {
+		if tc == nil || dead {
+			return
+		}
+		rec.s2c.set(true)
+		defer rec.s2c.set(false)
+		buf := make([]byte, 32768)
+		for {
+			k, err := tc.Read(buf)
+			plain[len(plain)-1] = append(plain[len(plain)-1], buf[:k]...)
+			if err != nil {
+				if _, ok := err.(vfE1SWouldBlock); !ok {
+					dead, tlsErr = true, err
+				}
+				return
+			}
+		}
+	}
+	push := func(kind string, isLive bool) {
+		drain()
+		cuts = append(cuts, rec.Len())
+		kinds = append(kinds, kind)
+		live = append(live, isLive)
+		plain = append(plain, nil)
+	}
 	for _, tok := range w[1:] {
+		if dead {
+			break
+		}
 		switch {
 		case tok == "f":
 			c.writeLock.Lock()
@@ -115,14 +254,33 @@ func vfE1SExec(n *NSQD, line string, hist map[string]int) (string, []string) {
 		case tok == "s":
 			atomic.StoreInt32(&c.State, stateSubscribed)
 		case tok == "us":
-			cuts = append(cuts, rec.Len())
-			kinds = append(kinds, "snappy")
+			push("snappy", tc != nil)
+			ups = append(ups, "snappy")
 			c.UpgradeSnappy()
 			hist["upgrade:snappy"]++
+		case tok == "ut":
+			push("plain", true)
+			ups = append(ups, "tls")
+			rec.s2c.discard() // bytes of the stacks on the raw connection: decoded offline from rec.buf
+			srvErr := make(chan error, 1)
+			go func() { srvErr <- c.UpgradeTLS() }()
+			ntc := tls.Client(vfE1SPeer{rec}, &tls.Config{InsecureSkipVerify: true})
+			cerr := ntc.Handshake()
+			serr := <-srvErr
+			if cerr != nil || serr != nil {
+				rec.s2c.close()
+				rec.c2s.close()
+				return line, []string{fmt.Sprintf("ORACLE-FAIL stack-harness TLS handshake failed: client %v server %v", cerr, serr)}
+			}
+			tc = ntc
+			hist["upgrade:tls"]++
+			if len(ups) > 1 {
+				hist["upgrade:tls-after-"+ups[len(ups)-2]]++
+			}
 		case strings.HasPrefix(tok, "ud"):
 			lv, _ := strconv.Atoi(tok[2:])
-			cuts = append(cuts, rec.Len())
-			kinds = append(kinds, "deflate")
+			push("deflate", tc != nil)
+			ups = append(ups, "deflate")
 			c.UpgradeDeflate(lv)
 			hist["upgrade:deflate"]++
 		case tok[0] == 'b':
@@ -148,6 +306,7 @@ func vfE1SExec(n *NSQD, line string, hist map[string]int) (string, []string) {
 				return line, []string{fmt.Sprintf("ORACLE-FAIL stack-harness Send failed: %v", err)}
 			}
 		}
+		drain()
 	}
 	raw := append([]byte(nil), rec.buf...)
 	cuts = append(cuts, len(raw))
@@ -158,7 +317,15 @@ func vfE1SExec(n *NSQD, line string, hist map[string]int) (string, []string) {
 	for k, kind := range kinds {
 		seg := raw[from:cuts[k]]
 		from = cuts[k]
+		if live[k] {
+			seg = plain[k]
+		}
 		dec, err := vfE1SDecode(kind, seg)
+		if dead && k == len(kinds)-1 {
+			parts = append(parts, fmt.Sprintf("%d:cut:%s", k, vfHex(dec)), "dead")
+			seen = append(seen, dec...)
+			break
+		}
 		if err != nil {
 			parts = append(parts, fmt.Sprintf("%d:garbled", k))
 			garbled = true
@@ -170,24 +337,45 @@ func vfE1SExec(n *NSQD, line string, hist map[string]int) (string, []string) {
 	c.writeLock.Lock()
 	buffered := c.Writer.Buffered()
 	c.writeLock.Unlock()
-	parts = append(parts, fmt.Sprintf("buf=%d", buffered))
+	if !dead {
+		parts = append(parts, fmt.Sprintf("buf=%d", buffered))
+	}
 	// direct oracle (no model): what the client decodes, stack by stack, is the frames sent minus
 	// what is still buffered
-	if garbled || len(seen)+buffered != len(all) || !bytes.Equal(seen, all[:len(seen)]) {
+	if dead || garbled || len(seen)+buffered != len(all) || !bytes.Equal(seen, all[:len(seen)]) {
 		hist["oracle:fail"]++
 		where := "undecodable"
-		if !garbled {
+		if dead {
+			where = fmt.Sprintf("the TLS session broke after %d of %d bytes: %v", len(seen), len(all)-buffered, tlsErr)
+		} else if !garbled {
 			where = fmt.Sprintf("decoded %d of %d bytes", len(seen), len(all)-buffered)
 		}
 		clear := ""
-		if len(kinds) > 1 && len(all) > 0 {
+		if len(kinds) > 1 && len(all) > 0 && !live[len(kinds)-1] {
 			last := raw[cuts[len(kinds)-2]:]
 			if i := bytes.Index(last, all[len(all)-vfE1SMin(len(all), 10):]); i >= 0 {
 				clear = "; the last frame is readable as CLEARTEXT on the raw connection"
 			}
 		}
-		fails = append(fails, fmt.Sprintf("ORACLE-FAIL second-identify-cleartext white-box: after `%s` the client, decoding with the negotiated stack (%s), does not receive the frames the server sent (%s)%s",
-			strings.Join(w[1:], " "), strings.Join(kinds, ">"), where, clear))
+		key := "second-identify-cleartext"
+		names := append([]string(nil), kinds...)
+		for k := range names {
+			if live[k] {
+				names[k] = "tls+" + names[k]
+			}
+		}
+		if dead && vfE1SStaleKinds(ups) {
+			hist["oracle:fail:tls-after-deflate"]++
+			key = "tls-after-deflate-garbled"
+			tail := raw[cuts[len(kinds)-2]:]
+			if bytes.HasSuffix(tail, []byte{0, 0, 0, 0xff, 0xff}) {
+				clear = "; the deflate sync marker 00 00 00 ff ff is on the raw connection behind the TLS records"
+			} else {
+				clear = "; the last bytes on the raw connection are a record of the superseded TLS session"
+			}
+		}
+		fails = append(fails, fmt.Sprintf("ORACLE-FAIL %s white-box: after `%s` the client, decoding with the negotiated stack (%s), does not receive the frames the server sent (%s)%s",
+			key, strings.Join(w[1:], " "), strings.Join(names, ">"), where, clear))
 	} else {
 		hist["oracle:ok"]++
 	}
@@ -205,6 +393,7 @@ func vfE1SGen(r *vfRand, maxBuf int, deflateThenSnappy bool) string {
 	toks := []string{"stack"}
 	sub := false
 	nUp := 0
+	nTLS := 0
 	deflated := false
 	steps := 2 + r.Intn(9)
 	frame := func() string {
@@ -234,13 +423,20 @@ func vfE1SGen(r *vfRand, maxBuf int, deflateThenSnappy bool) string {
 		switch {
 		case !sub && k < 3:
 			toks = append(toks, size())
-		case !sub && k < 5 && nUp < 2:
+		case !sub && k < 5 && nUp < 3:
 			// snappy negotiated after deflate is a finding of its own on the tree before F30
 			// (snappy-after-deflate-garbled: the orphaned flate.Writer keeps being flushed); it is
-			// generated only when the tree has the fix, and replayed oracle-only otherwise
-			if r.Intn(2) == 0 && (deflateThenSnappy || !deflated) {
+			// generated only when the tree has the fix, and replayed oracle-only otherwise.
+			// TLS after deflate (open finding tls-after-deflate-garbled on /repo d6aa4e3, repaired by F30b)
+			// IS inside the model (Model.WireStack.kstep): generated on every tree
+			u := r.Intn(5)
+			switch {
+			case u < 2 && nTLS < 2:
+				toks = append(toks, "ut")
+				nTLS++
+			case u < 4 && (deflateThenSnappy || !deflated):
 				toks = append(toks, "us")
-			} else {
+			default:
 				toks = append(toks, fmt.Sprintf("ud%d", 1+r.Intn(9)))
 				deflated = true
 			}
@@ -261,6 +457,15 @@ func vfE1SGen(r *vfRand, maxBuf int, deflateThenSnappy bool) string {
 	return strings.Join(toks, " ")
 }
 
+func vfE1SCertDir() string {
+	for _, c := range []string{filepath.Join(os.Getenv("VERIF_REPO"), "nsqd", "test", "certs"), "/repo/nsqd/test/certs", "./test/certs"} {
+		if _, err := os.Stat(filepath.Join(c, "server.pem")); err == nil {
+			return c
+		}
+	}
+	return ""
+}
+
 func TestVerifStackCorr(t *testing.T) {
 	out := vfOpen("stack")
 	defer out.Close()
@@ -271,6 +476,12 @@ func TestVerifStackCorr(t *testing.T) {
 	opts.LogLevel = LOG_FATAL
 	opts.DataPath = t.TempDir()
 	opts.SnappyEnabled, opts.DeflateEnabled = true, true
+	certDir := vfE1SCertDir()
+	if certDir == "" {
+		t.Fatalf("TLS test certificates not found (set VERIF_REPO)")
+	}
+	opts.TLSCert = filepath.Join(certDir, "server.pem")
+	opts.TLSKey = filepath.Join(certDir, "server.key")
 	_, _, nsqd := mustStartNSQD(opts)
 	defer nsqd.Exit()
 	defer vfE1PanicGuard("a writer-stack call", out)()
@@ -580,13 +791,7 @@ func vfE1SReident(n *NSQD, cb vfE1SCombo, idx int, r *vfRand) (key, what string)
 }
 
 func TestVerifReidentify(t *testing.T) {
-	certDir := ""
-	for _, c := range []string{filepath.Join(os.Getenv("VERIF_REPO"), "nsqd", "test", "certs"), "/repo/nsqd/test/certs", "./test/certs"} {
-		if _, err := os.Stat(filepath.Join(c, "server.pem")); err == nil {
-			certDir = c
-			break
-		}
-	}
+	certDir := vfE1SCertDir()
 	if certDir == "" {
 		t.Fatalf("TLS test certificates not found (set VERIF_REPO)")
 	}
